@@ -144,10 +144,10 @@ func runC06(cfg *vh.Config) error {
 		compact := tree.Print(nil)
 		if len(compact) < 400 || r.Chance(10) {
 			for _, p := range codecgen.Prefixes(compact, 60, r) {
-				add("truncated document", t, p, r.Chance(35))
+				add("truncated document", t, p, r.Chance(25))
 			}
 			for _, nd := range codecgen.NullEverywhere(tree) {
-				add("null at a value position", t, nd.Print(nil), r.Chance(50))
+				add("null at a value position", t, nd.Print(nil), r.Chance(40))
 			}
 		}
 		for k := 0; k < 4; k++ {
@@ -186,7 +186,7 @@ func runC06(cfg *vh.Config) error {
 						val = codecgen.Obj().Add("k", v)
 					}
 					doc := codecgen.Obj().Add(p.JSON, val).Print(nil)
-					add("odd value at a member position", t, doc, r.Chance(22))
+					add("odd value at a member position", t, doc, r.Chance(map[bool]int{true: 9, false: 22}[cfg.Tier == "quick"]))
 				}
 			}
 		}
@@ -350,6 +350,38 @@ func runC06(cfg *vh.Config) error {
 		em.caseNo++
 	}
 
+	// ---- query: every scalar / scalar-array property of every root with blank and odd values
+	for _, t := range targets {
+		root := t.Env.Lookup(t.Env.Root)
+		for _, p := range root.Props {
+			leaf := p.Ty.Class == "scalar" || p.Ty.Class == "enum" ||
+				(p.Ty.Class == "array" && (p.Ty.Item.Class == "scalar" || p.Ty.Item.Class == "enum"))
+			if !leaf {
+				continue
+			}
+			for _, vals := range [][]string{{""}, {"", "x"}, {"x", ""}, {" "}, {"1e60000000"}, {"0e-2000000000"}, {"null"}, {"\x00"}} {
+				q := url.Values{p.JSON: vals}
+				o := decodeQuery(t, q)
+				res.Count("query")
+				res.Count("query-outcome:" + o.Kind)
+				input := map[string]any{"target": t.Env.Root, "query": fmt.Sprintf("%q", map[string][]string(q))}
+				switch o.Kind {
+				case "panic":
+					res.Fail(vh.Failure{Case: em.caseNo, Stream: "query", Sig: fmt.Sprintf("C06 QueryToProto panics in %s: %s", o.Site, panicClass(o.Panic)), Clause: "query decoding never panics", Input: input, Got: o.Panic})
+				case "timeout":
+					res.Fail(vh.Failure{Case: em.caseNo, Stream: "query", Sig: "C06 QueryToProto does not return within the deadline", Clause: "query decoding returns in bounded time", Input: input, Got: "timeout"})
+				default:
+					if o.Elapsed > 2*time.Second {
+						res.Fail(vh.Failure{Case: em.caseNo, Stream: "query", Sig: "C06 QueryToProto time not linear in input size", Clause: "query decoding returns in time bounded by the input size", Input: input, Got: o.Elapsed.String()})
+					}
+				}
+				if o.Kind != "timeout" && r.Chance(25) {
+					em.add(queryCase(t, q, o), "query", input, map[string]any{"kind": o.Kind, "err": o.Err, "panic": o.Panic})
+				}
+				em.caseNo++
+			}
+		}
+	}
 	res.Notes = append(res.Notes, fmt.Sprintf("stage: after query %s", time.Since(t0)))
 	res.Evaluations = em.caseNo
 	res.Distinct = len(distinct) - 1
